@@ -740,7 +740,7 @@ RefResult run(const Model& m, const char* bytes, int64_t n, const RunOptions& op
             v.digest = sim::leaf_digest(lex, uint32_t(cur.line), uint32_t(cur.col));
             v.sdigest = sim::leaf_digest(lex, 0, 0);
             res.shifted.push_back(cur);
-            v.text = "'" + lex + "'@" + std::to_string(cur.line) + ":" + std::to_string(cur.col);
+            if (lex.size() < 4096) v.text = "'" + lex + "'@" + std::to_string(cur.line) + ":" + std::to_string(cur.col);
             values.push_back(std::move(v));
             advance_pos(line, col, bytes + cur.off, cur.len);
             pos = cur.off + cur.len;
@@ -771,7 +771,8 @@ RefResult run(const Model& m, const char* bytes, int64_t n, const RunOptions& op
                 {
                     h = sim::node_digest_add(h, values[i].digest);
                     hs = sim::node_digest_add(hs, values[i].sdigest);
-                    v.text += " " + values[i].text;
+                    if (v.text.size() + values[i].text.size() < 4096) v.text += " " + values[i].text;
+                    else if (v.text.size() < 4096 + 8) v.text += " ...";
                 }
                 h = sim::node_digest_end(h, int(k));
                 hs = sim::node_digest_end(hs, int(k));
